@@ -205,8 +205,11 @@ def main(argv):
     if len(violations) > printed:
         print("  (%d further violations not listed; by first clause: %s)"
               % (len(violations) - printed, dict(per_clause)))
-    for e in errors:
-        print("harness error: " + e)
+    for e in errors[:3]:
+        lines = e.strip().splitlines()
+        print("harness error: " + lines[0][:200])
+        for ln in lines[-6:]:
+            print("    " + ln[:300])
     if errors and status == 0:
         status = 2
 
